@@ -1079,6 +1079,23 @@ _MARSH_FN = re.compile(r"^(un)?marshal_one(_\w+)?$|^janet_(un)?marshal_janet$")
 _LEAF_VALUE = re.compile(r"^\s*janet_wrap_(string|keyword|symbol|integer|number|nil|boolean)\s*\(|^\s*janet_c(string|keyword|symbol)v\s*\(")
 
 
+def _split_c_args(t):
+    out, depth, cur = [], 0, []
+    for ch in t:
+        if ch in "([{":
+            depth += 1
+        elif ch in ")]}":
+            depth -= 1
+        if ch == "," and depth == 0:
+            out.append("".join(cur).strip())
+            cur = []
+        else:
+            cur.append(ch)
+    if "".join(cur).strip():
+        out.append("".join(cur).strip())
+    return out
+
+
 def depth_arg_graph(bodies):
     fns = sorted(n for n, b in bodies.items() if b and _MARSH_FN.match(n))
     if "marshal_one" not in fns or "unmarshal_one" not in fns:
@@ -1092,7 +1109,7 @@ def depth_arg_graph(bodies):
             if b not in fns:
                 continue
             inside, _ = _paren(body, m.end() - 1)
-            args = _split_top(inside)
+            args = _split_c_args(inside)
             if len(args) < 3:
                 continue
             if b == "marshal_one" and _LEAF_VALUE.match(args[1]):
@@ -1101,7 +1118,7 @@ def depth_arg_graph(bodies):
             sites.append((a, b, args[-1].strip(), charged))
             edges[(a, b)] = edges.get((a, b), True) and charged
         for m in re.finditer(r"JanetMarshalContext\s+\w+\s*=\s*\{([^}]*)\}", body):
-            parts = _split_top(m.group(1))
+            parts = _split_c_args(m.group(1))
             if len(parts) < 3:
                 continue
             b = "janet_unmarshal_janet" if a.startswith("un") else "janet_marshal_janet"
